@@ -121,6 +121,9 @@ class Exponential(DPMechanism):
             if np.isinf(measure).any():
                 raise ValueError("Measure must be a list of finite numbers.")
 
+            if not all(m >= 0 for m in measure):
+                raise ValueError("Measure must be a list of non-negative numbers.")
+
             if len(measure) != len(utility):
                 raise ValueError("List of measures must be the same length as the list of utility values.")
 
